@@ -174,6 +174,13 @@ impl AisParser {
         Ok(())
     }
 
+    /// Verification hook: exposes the private checksum gate to the harness crate. Compiled only under
+    /// `--cfg kani` (set by `cargo kani`) or `--cfg ais_verif`; it adds nothing to a normal build.
+    #[cfg(any(kani, ais_verif))]
+    pub fn verif_check_checksum(sentence: &[u8], expected_checksum: u8) -> Result<u8> {
+        Self::check_checksum(sentence, expected_checksum)
+    }
+
     /// Verifies the AIS sentence checksum
     fn check_checksum(sentence: &[u8], expected_checksum: u8) -> Result<u8> {
         let received_checksum = sentence.iter().fold(0u8, |acc, &item| acc ^ item);
